@@ -35,7 +35,10 @@ RECURSIVE ReplayAttrs(_, _)
 ReplayAttrs(t, k) ==
     IF k > Len(t.events) THEN (IF Len(t.events) = 0 THEN "triv" ELSE "ok")
     ELSE LET e == t.events[k] IN
-         IF e[3] # "UBXMessageError" THEN "C13:" \o e[1] \o "attr-not-refused-with-UBXMessageError:" \o e[3]
+         \* an observation (hash, comparison, copy, pickle, listing ...) leaves the message as it was
+         IF e[1] = "observe" THEN (IF e[3] # "unchanged" THEN "C13:message-changed-by-looking-at-it:" \o e[2]
+                                   ELSE IF e[5] # 0 THEN "C13:wrote-to-stdout-or-stderr" ELSE ReplayAttrs(t, k + 1))
+         ELSE IF e[3] # "UBXMessageError" THEN "C13:" \o e[1] \o "attr-not-refused-with-UBXMessageError:" \o e[3]
          ELSE IF e[4] # 1 THEN "C13:serialization-changed-by-" \o e[1] \o "attr"
          ELSE IF e[5] # 0 THEN "C13:wrote-to-stdout-or-stderr"
          ELSE ReplayAttrs(t, k + 1)
